@@ -72,7 +72,14 @@ class DotModel(GraphModel):
         if isinstance(f, ast.Attribute) and isinstance(f.value, ast.Name) and f.attr in ('append', 'extend') \
                 and len(args) == 1 and st.var(fr.fid, f.value.id) is not None and f.value.id != 'self':
             cur = st.var(fr.fid, f.value.id)
-            if cur[0] in ('union', 'out') and (is_stringish(args[0]) or args[0][0] == 'mcall'):
+            if cur[0] in ('union', 'out', 'list') and f.attr == 'extend' and args[0][0] == 'out':
+                # the pieces of an inlined helper were logged where it collected them
+                return [(st.with_var(fr.fid, f.value.id, T.mk(('out', f.value.id))), T.NONE)]
+            if cur[0] in ('union', 'out', 'list') and f.attr == 'extend' and args[0][0] in ('list', 'tuple'):
+                for piece in args[0][1]:
+                    st = self.emit(ip, node, piece, st, fr)
+                return [(st.with_var(fr.fid, f.value.id, T.mk(('out', f.value.id))), T.NONE)]
+            if cur[0] in ('union', 'out', 'list') and (is_stringish(args[0]) or args[0][0] == 'mcall'):
                 st = self.emit(ip, node, args[0], st, fr)
                 return [(st.with_var(fr.fid, f.value.id, T.mk(('out', f.value.id))), T.NONE)]
         return GraphModel.on_call(self, ip, node, fterm, args, kws, st, fr)
@@ -106,6 +113,12 @@ class DotModel(GraphModel):
                     added = T.mk(('unk', 'piece'))
                 st = self.emit(ip, node, added, st, fr)
                 return st.with_var(fr.fid, name, T.mk(('out', name)))
+        if isinstance(node, ast.Assign) and name in self.out_names(fr) and val[0] in ('list', 'tuple') and val[1] \
+                and all(is_stringish(x) or x[0] == 'mcall' for x in val[1]):
+            # the output list starts with its first pieces
+            for piece in val[1]:
+                st = self.emit(ip, node, piece, st, fr)
+            return st.with_var(fr.fid, name, T.mk(('out', name)))
         if isinstance(node, ast.Assign) and name in self.out_names(fr) and \
                 (is_stringish(val) or (val[0] == 'mcall' and val[2] in ('repr_id', 'dot_cluster_name'))):
             # the output variable starts with its first piece
@@ -502,8 +515,8 @@ def numbering(ctx, rep, r3, em=None):
                       "ids assigned at statement %s, used at statement %s" % (first_num, first_use),
                       "jobs are drawn/listed with stale or missing ids: nodes collide or show as ??")
         lst = p.supplier(r.sched, 'list')
-        uses = [n for n in walk_local(lst.node) if isinstance(n, ast.For) and isinstance(n.iter, ast.Call)
-                and dotted(n.iter.func) == 'self.topological_order']
+        from .common import topo_loops
+        uses = topo_loops(ctx, lst)
         rep.check(bool(uses), r3, "%s lists in topological order" % lst.qualname, lst.qualname,
                   "list() does not iterate over self.topological_order()", "jobs are not listed in topological order")
         # nested numbering hook: one id for the cluster, then its members; count hook agrees
